@@ -22,6 +22,21 @@ def valid(y, m, d):
     return z3.And(y >= 1, y <= 9999, m >= 1, m <= 12, d >= 1, d <= dim(y, m))
 
 
+def lexlt(a, b):
+    (y1, m1, d1), (y2, m2, d2) = a, b
+    return z3.Or(y1 < y2, z3.And(y1 == y2, z3.Or(m1 < m2, z3.And(m1 == m2, d1 < d2))))
+
+
+def register(run, y, m, d, o):
+    """trusted calendar facts, instantiated for every pair of dates of the path: the ordinal is
+    strictly monotone in (y, m, d) and injective; 0001-01-01 has ordinal 1."""
+    terms = run.gcache.setdefault('date-terms', [])
+    for (y2, m2, d2, o2) in terms:
+        run.assume((o < o2) == lexlt((y, m, d), (y2, m2, d2)))
+        run.assume((o == o2) == z3.And(y == y2, m == m2, d == d2))
+    terms.append((y, m, d, o))
+
+
 def part(run, d, name):
     o = d.t
     y, m, dd = date_y(o), date_m(o), date_d(o)
@@ -30,6 +45,7 @@ def part(run, d, name):
         run.gcache[key] = True
         run.assume(valid(y, m, dd))
         run.assume(mkdate(y, m, dd) == o)
+        register(run, y, m, dd, o)
     return SInt({'year': y, 'month': m, 'day': dd}[name])
 
 
@@ -39,9 +55,16 @@ def make_date(run, args, node):
     y, m, d = [run.as_int(a) for a in args]
     ln = getattr(node, 'lineno', None)
     if not run.specmode:
+        big = 2 ** 31
+        if run.branch(z3.Or(*[z3.Or(v >= big, v < -big) for v in (y, m, d)])):
+            raise PyRaise('OverflowError', ln, 'Python int too large to convert to C int')
         if run.branch(z3.Not(valid(y, m, d))):
             raise PyRaise('ValueError', ln, 'day/month/year out of range')
     o = mkdate(y, m, d)
     run.assume(z3.And(o >= 1, o <= MAXORD))
     run.assume(z3.And(date_y(o) == y, date_m(o) == m, date_d(o) == d))
+    key = ('date-axioms', str(o))
+    if key not in run.gcache:
+        run.gcache[key] = True
+        register(run, y, m, d, o)
     return SDate(o)
